@@ -86,6 +86,7 @@ def hostile_names(rng, canaries):
         # their bytes must not come out - under their own name or, in a solid 7z folder, under a neighbour's)
         *unsafe_protected_names(),
         ".hidden.txt", "dir/.hidden2.md", "__MACOSX/._res.txt", "__MACOSX/sub/x.txt", "inner.zip", "inner.tar.gz", "deep/inner.7z", "tool.exe", "noext",
+        "logs.tar.bz2", "old/2019.TAR.XZ", "snap.tgz", "x.tbz2", "y.txz", "plain.tar", "Backup.Tar.Gz",
         "UPPER.TXT", "mixed.TxT", "report.docx", "data.json",
     ]
     rng.shuffle(names)
@@ -94,7 +95,9 @@ def hostile_names(rng, canaries):
 
 BENIGN_NAMES = ["readme.txt", "docs/a.md", "docs/b/c.csv", "data.json", "UPPER.TXT", "ünï/文書.txt", "notes v2.txt", "x/y/z/deep.md"]
 PROTECTED = [("hidden", ".secret.txt"), ("hidden", "docs/.env.txt"), ("fork", "__MACOSX/._report.txt"), ("fork", "__MACOSX/docs/res.md"),
-             ("unsupported", "payload.bin"), ("unsupported", "docs/tool.exe"), ("nested", "inner-data.zip"), ("nested", "docs/bundle.tar.gz")]
+             ("unsupported", "payload.bin"), ("unsupported", "docs/tool.exe"), ("nested", "inner-data.zip"), ("nested", "docs/bundle.tar.gz"),
+             ("nested", "logs.tar.xz"), ("nested", "docs/snap.tbz2")]
+NESTED_SUFFIXES = (".zip", ".tar", ".tar.gz", ".tgz", ".tar.bz2", ".tbz2", ".tar.xz", ".txz", ".7z")      # the library's documented nested-archive names
 
 
 def hostile_dir_names(rng):
@@ -198,7 +201,7 @@ def _add_dups(rng, seed, fam, members, info, oversize_tok):
         tok = f"qg{seed % 100000:05d}z"
         body = f"{tok} {cls} member payload\n".encode()
         if cls == "nested":
-            body = archives.build("zip-stored", [{"name": "x.txt", "data": body}])
+            body = archives.nested_for(tname, [{"name": "x.txt", "data": body}])
         members.insert(rng.randint(0, i), {"name": tname, "data": body, "type": "file"})      # in front of everything that refers to it
         i += 1
         info["dup_tokens"].append(tok)
@@ -231,7 +234,21 @@ def unsafe_protected_names():
             "..\\.bs-hidden.txt", "docs/../../../outside/.hidden5.csv", "../../outside/noext2"]
 
 
-def build_case(seed: int, layout: str, focus: str = "names", limit: int | None = None):
+BARE_NESTED = ["logs.gz", "docs/b.bz2", "c.xz", "EXPORT.GZ", "a/b/data.csv.gz", "old/dump.BZ2"]
+
+
+def _bare_twin(members):
+    """Control twin: the compressed TARs under the name a packer gives them (x.gz -> x.tar.gz), which the library documents as nested archives."""
+    out = []
+    for m in members:
+        if m.get("bare"):
+            stem, dot, suf = m["name"].rpartition(".")
+            m = dict(m, name=f"{stem}.tar.{suf}")
+        out.append(m)
+    return out
+
+
+def build_case(seed: int, layout: str, focus: str = "names", limit: int | None = None, bare: bool = False):
     """``limit``: the per-member limit the case runs under (configure_archive_extraction(max_memory_size=limit)); members just above it are added,
     which are oversize under that configuration although far below the 10 MiB default."""
     rng = random.Random(f"c09:{seed}")
@@ -253,21 +270,21 @@ def build_case(seed: int, layout: str, focus: str = "names", limit: int | None =
     # name cases - the phantoms focus owns them
     phantom_case = fam == "7z" and focus == "names" and rng.random() < 0.4
     info = {"hostile_dirs": 0, "escaping_dirs": 0, "links_to_protected": 0, "link_tokens": [], "oversize_linked": False, "oversize_form": None, "substreams": True,
-            "prelude": [], "twin_forbidden": [], "own": [], "twins": 0, "phantom_escapes": 0, "dups": None, "dup_tokens": [], "unsafe_protected": 0, "limit_tokens": []}
+            "prelude": [], "twin_forbidden": [], "own": [], "twins": 0, "phantom_escapes": 0, "dups": None, "dup_tokens": [], "unsafe_protected": 0, "limit_tokens": [], "bare_tokens": []}
     for i, nm in enumerate(names):
         tok = f"qa{seed % 1000:03d}{i:02d}z"
         data = f"{tok} member payload {i}\n".encode()
         if nm.endswith(".docx"):
             from vlib.gen import docs
             data = docs.build("docx", seed + i)[0]
-        if nm.endswith((".zip", ".tar.gz", ".7z")):
-            data = archives.build("zip-stored", [{"name": "x.txt", "data": f"{tok} nested".encode()}])
+        if nm.lower().endswith(NESTED_SUFFIXES):
+            data = archives.nested_for(nm, [{"name": "inner/x.txt", "data": f"{tok} nested".encode()}])      # a readable archive of the announced type
         m = {"name": nm, "data": data, "type": "file"}
         if phantom_case and rng.random() < 0.35:
             m["phantom"] = True          # entry flagged as having data, but no stream exists for it
         members.append(m)
         base = nm.replace("\\", "/").rsplit("/", 1)[-1] if fam != "zip" else nm.rsplit("/", 1)[-1]
-        if os.path.basename(nm).startswith(".") or nm.startswith("__MACOSX/") or nm.lower().endswith((".zip", ".tar.gz", ".7z", ".exe")) or "." not in os.path.basename(nm):
+        if os.path.basename(nm).startswith(".") or nm.startswith("__MACOSX/") or nm.lower().endswith(NESTED_SUFFIXES + (".exe",)) or "." not in os.path.basename(nm):
             expect_skip.append(tok)
     # tar-only hostile member types
     if fam not in ("zip", "7z"):
@@ -310,6 +327,13 @@ def build_case(seed: int, layout: str, focus: str = "names", limit: int | None =
             members.append(m)
             info["hostile_dirs"] += 1
             info["escaping_dirs"] += 1 if _escapes(nm) else 0
+    if bare:
+        # nested archives under a bare compression suffix: a gzip / bzip2 / xz compressed TAR named x.gz / x.bz2 / x.xz
+        rb = random.Random(f"c09b:{seed}")
+        for k, nm in enumerate(rb.sample(BARE_NESTED, rb.randint(1, 2))):
+            tok = f"qb{seed % 100000:05d}{k}z"
+            members.append({"name": nm, "data": archives.nested_for(nm, [{"name": "inner/x.txt", "data": f"{tok} nested".encode()}]), "type": "file", "bare": True})
+            info["bare_tokens"].append(tok)
     if limit:
         rl = random.Random(f"c09l:{seed}")
         for k in range(rl.randint(1, 2)):
@@ -360,7 +384,7 @@ def build_case(seed: int, layout: str, focus: str = "names", limit: int | None =
                 tok = f"ql{seed % 1000:03d}{j:02d}z"
                 body = f"{tok} {cls} member payload\n".encode()
                 if cls == "nested":
-                    body = archives.build("zip-stored", [{"name": "x.txt", "data": body}])
+                    body = archives.nested_for(tname, [{"name": "x.txt", "data": body}])
                 members.insert(rng.randint(0, len(members)), {"name": tname, "data": body, "type": "file"})
                 if cls != "visible":
                     info["link_tokens"].append(tok)
@@ -389,9 +413,16 @@ def work(case):
     try:
         if case.get("limit"):
             AE.configure_archive_extraction(max_memory_size=case["limit"])      # the library's documented way to lower the per-member limit
+            # later option calls that do not mention the limit (a history of configure calls): every option is "None = leave as it is"
+            for kw in RECONF[case.get("reconf", 0) % len(RECONF)]:
+                AE.configure_archive_extraction(**kw)
         return _work(case)
     finally:
         AE._config = saved
+
+
+RECONF = [[], [{"enable_parallel": False}], [{"buffer_size": 32768}], [{"max_workers": 2}, {"enable_caching": True}], [{}], [{"enable_streaming": False}, {"enable_parallel": True}],
+          [{"buffer_size": 65536, "max_workers": 1, "enable_caching": False}]]
 
 
 def _work(case):
@@ -402,7 +433,7 @@ def _work(case):
     for leftover in os.listdir(TMP):     # a previous case's leak is that case's finding, not this one's
         shutil.rmtree(os.path.join(TMP, leftover), ignore_errors=True)
     layout = case["layout"]
-    members, canaries, expect_skip, oversize_tok, info = build_case(case["seed"], layout, case.get("focus", "names"), case.get("limit"))
+    members, canaries, expect_skip, oversize_tok, info = build_case(case["seed"], layout, case.get("focus", "names"), case.get("limit"), bool(case.get("bare")))
     try:
         data = archives.build(layout, members, substreams=info["substreams"])
         prelude = [dict(a, data=archives.build(a["layout"], a["members"])) for a in info["prelude"]]
@@ -519,7 +550,14 @@ def _work(case):
     out["oversize_form"] = info["oversize_form"]
     out["oversize_content_in_results"] = (TAIL_TOKEN in blob) or any(len(t) > MEMBER_LIMIT for t in texts)
     # twins: per archive of the sequence
+    out["bare_nested"] = len(info["bare_tokens"])
+    out["bare_nested_in_results"] = [t for t in info["bare_tokens"] if t in blob] if consistent else []
+    out["bare_twin_clean"] = None
+    if out["bare_nested_in_results"]:
+        tn, tt = _exhaust(fn, archives.build(layout, _bare_twin(members), substreams=info["substreams"]), layout)
+        out["bare_twin_clean"] = isinstance(tt, list) and not any(t in "\n".join(tt) for t in info["bare_tokens"])
     out["limit"] = case.get("limit")
+    out["reconf"] = bool(case.get("limit") and RECONF[case.get("reconf", 0) % len(RECONF)])
     out["over_configured_limit_in_results"] = [t for t in info["limit_tokens"] if t in blob] if consistent else []
     out["unsafe_protected"] = info["unsafe_protected"]
     out["phantom_escapes"] = info["phantom_escapes"]
@@ -604,7 +642,7 @@ def gen_cases(run):
             limit = [4096, 65536, 1 << 20, 300000][(r // 3) % 4] if r % 3 == 1 else None
             # twins: a sequence of archives, each consumed to the end (the first one a second time at the end)
             yield {"id": cid, "layout": layout, "seed": run.seed * 100000 + cid, "behaviour": "exhaust" if focus == "twins" else BEHAVIOURS[r % 4], "mutate": r % 5 == 4,
-                   "focus": focus, "limit": limit}
+                   "focus": focus, "limit": limit, "bare": r % 8 == 5 and focus != "names", "reconf": (r // 3 + cid) % 7 if limit else 0}
 
 
 def main(run):
@@ -638,6 +676,10 @@ def main(run):
             if ob.get(k) and not case["mutate"]:
                 run.count(f"{'7z' if fam == '7z' else 'zip' if fam == 'zip' else 'tar'}_archives_with_{k}")
         run.count("mkdir_events_observed", ob.get("n_mkdir_events", 0))
+        if ob.get("bare_nested") and not case["mutate"]:
+            run.count("archives_with_nested_archive_under_bare_compression_suffix")
+        if ob.get("reconf") and not case["mutate"]:
+            run.count("archives_under_lowered_limit_followed_by_other_option_calls")
         if ob.get("limit") and not case["mutate"]:
             run.count(f"{'7z' if fam == '7z' else 'zip' if fam == 'zip' else 'tar'}_archives_under_lowered_member_limit")
         if ob.get("unsafe_protected") and not case["mutate"] and fam == "7z" and ("solid" in case["layout"] or "pairs" in case["layout"]):
@@ -659,9 +701,9 @@ def main(run):
         if focus == "dups" and ob.get("dups_twin_clean") is False:
             feat0 = "hostile-names"         # the twin with unique names misbehaves as well: not a matter of the repeated name
 
-        def v(sym, detail, feat=None):
+        def v(sym, detail, feat=None, comp=None):
             feat = feat or feat0
-            key = f"C09:{lc}:{'mutated' if case['mutate'] else feat}:{sym}"
+            key = f"C09:{comp or lc}:{'mutated' if case['mutate'] else feat}:{sym}"
             if key not in seen:
                 seen.add(key)
                 run.violation(key, f"{case['layout']} / {case['behaviour']} (seed {case['seed']}): {detail}", rep)
@@ -693,9 +735,16 @@ def main(run):
               "oversize-member-listed-smaller" if forged else "link-to-protected-member" if ob["oversize_linked"] and focus != "dups" else None)
         if ob["dup_protected_in_results"] and not ob["oversize_content_in_results"]:
             v("hidden-or-unsupported-member-produced-result", f"tokens {ob['dup_protected_in_results'][:3]}: content of a protected member came out through a second entry ({ob['dups']}) of an ordinary member's name")
+        if ob.get("bare_nested_in_results"):
+            v("nested-archive-produced-results", f"tokens {ob['bare_nested_in_results'][:3]}: a compressed TAR stored as a member named *.gz / *.bz2 / *.xz was unpacked and its members were returned "
+              "(the same member named *.tar.gz is skipped)" if ob.get("bare_twin_clean") else f"tokens {ob['bare_nested_in_results'][:3]} of nested archives are in the results",
+              "nested-archive-under-bare-compression-suffix" if ob.get("bare_twin_clean") else None,
+              "archive" if ob.get("bare_twin_clean") else None)      # the member filter is shared by the three containers: one mechanism
         if ob.get("over_configured_limit_in_results"):
-            v("oversize-member-produced-result", f"the per-member limit was lowered to {ob['limit']} bytes through configure_archive_extraction(); members above it (tokens "
-              f"{ob['over_configured_limit_in_results'][:3]}) produced results", "configured-member-limit")
+            v("oversize-member-produced-result", f"the per-member limit was lowered to {ob['limit']} bytes through configure_archive_extraction()"
+              + (f", followed by the option calls {RECONF[case.get('reconf', 0) % len(RECONF)]} that do not mention it" if ob.get("reconf") else "")
+              + f"; members above it (tokens {ob['over_configured_limit_in_results'][:3]}) produced results",
+              "configured-member-limit-then-other-options" if ob.get("reconf") else "configured-member-limit")
         if ob["twin_forbidden_in_results"]:
             v("hidden-or-unsupported-member-produced-result", f"tokens {ob['twin_forbidden_in_results'][:3]} of __MACOSX/ members whose base name equals that of an ordinary member (same archive or an archive "
               "processed earlier by the same process) are in the results", "same-base-name-twins")
@@ -719,7 +768,7 @@ def main(run):
     for k, lo in (("7z_archives_with_escaping_dirs", run.n(100, 1000)), ("7z_multi_file_folders_with_unsafe_named_protected_member", run.n(20, 200)), ("zip_archives_with_escaping_dirs", run.n(10, 100)), ("tar_archives_with_escaping_dirs", run.n(30, 300)),
                   ("tar_archives_with_links_to_protected", run.n(40, 400)), ("mkdir_events_observed", run.n(500, 5000)),
                   ("archive_sequences_with_same_base_name_twins", run.n(80, 800)), ("7z_archives_with_streamless_entries_climbing_out", run.n(60, 600)),
-                  ("7z_archives_under_lowered_member_limit", run.n(120, 1200)), ("tar_archives_under_lowered_member_limit", run.n(40, 400)), ("zip_archives_under_lowered_member_limit", run.n(10, 100)),
+                  ("archives_with_nested_archive_under_bare_compression_suffix", run.n(60, 600)), ("archives_under_lowered_limit_followed_by_other_option_calls", run.n(150, 1500)), ("7z_archives_under_lowered_member_limit", run.n(120, 1200)), ("tar_archives_under_lowered_member_limit", run.n(40, 400)), ("zip_archives_under_lowered_member_limit", run.n(10, 100)),
                   ("7z_archives_with_duplicate_member_names", run.n(60, 600)), ("tar_archives_with_duplicate_member_names", run.n(30, 300)), ("zip_archives_with_duplicate_member_names", run.n(6, 60)), ("7z_archives_with_oversize_member_listed_smaller", run.n(8, 80))):
         run.require(k, run.counters.get(k, 0), lo)
 
